@@ -1,6 +1,7 @@
 import BeffVerif.Props.C05
 import BeffVerif.Props.C05Flat
 import BeffVerif.Props.C05Tuple
+import BeffVerif.Props.C05Union
 open BeffVerif.C05
 #print axioms litInter_has
 #print axioms litUnion_has
@@ -20,3 +21,6 @@ open BeffVerif.C05
 #print axioms BeffVerif.C05Tuple.inhabitedNot_one
 #print axioms BeffVerif.C05Tuple.every_shape
 #print axioms BeffVerif.C05Tuple.covered_list_iff
+#print axioms BeffVerif.C05Union.check_many
+#print axioms BeffVerif.C05Union.sem_step
+#print axioms BeffVerif.C05Union.keys_fold_gen
